@@ -38,3 +38,28 @@ Theorem C17_rearrangement_skeleton_is_size_generic : forall k din dout din' dout
   skeleton (lower_rearrange k din dout) = skeleton (lower_rearrange k din' dout').
 Proof. intros k din dout din' dout' H1 H2. unfold lower_rearrange, perm_of. cbn. now rewrite H1, H2. Qed.
 Print Assumptions C17_rearrangement_skeleton_is_size_generic.
+
+(* the same for the whole operation tree of the three modelled lowerings, with the backend function and its literal
+   arguments (axis=) kept and only the shape literals erased (Proofs/SkeletonProofs.v): rearrangements, element-wise calls
+   of any number of inputs, reductions - equal axis names (and brackets) give the same operations whatever the lengths *)
+From EinxV Require Import Proofs.SkeletonProofs.
+Theorem C17_elementwise_skeleton_is_size_generic : forall f ins ins' dout dout',
+  Forall2 (fun d d' => lnames d = lnames d') ins ins' -> lnames dout = lnames dout' ->
+  skel (lower_elementwise f ins dout) = skel (lower_elementwise f ins' dout').
+Proof. exact skel_elementwise. Qed.
+Print Assumptions C17_elementwise_skeleton_is_size_generic.
+
+Theorem C17_reduction_skeleton_is_size_generic : forall f din dout din' dout',
+  lnames din = lnames din' -> lmarks din = lmarks din' -> lnames dout = lnames dout' ->
+  skel (lower_reduce f din dout) = skel (lower_reduce f din' dout').
+Proof. exact skel_reduce. Qed.
+Print Assumptions C17_reduction_skeleton_is_size_generic.
+
+Example C17_skeleton_example :
+  (* "a ([b] c) -> c a" with lengths 2,3,4 and with lengths 5,1,7: the same operations, axis=1 and transposition (1 0) *)
+  let d1 := [PAx 1 2 false; PFl [PAx 2 3 true; PAx 3 4 false]] in
+  let d2 := [PAx 1 5 false; PFl [PAx 2 1 true; PAx 3 7 false]] in
+  skel (lower_reduce "sum"%string d1 [PAx 3 4 false; PAx 1 2 false]) = skel (lower_reduce "sum"%string d2 [PAx 3 7 false; PAx 1 5 false]) /\
+  skel (lower_reduce "sum"%string d1 [PAx 3 4 false; PAx 1 2 false]) =
+    SkReshape (SkTranspose (SkReshape (SkOther "sum"%string [SkReshape (SkIn 0)] ["1"%string; "kw:axis"%string])) [1; 0]%nat).
+Proof. vm_compute. split; reflexivity. Qed.
